@@ -402,7 +402,8 @@ def _wrap_iff(func: ast.AST, circular: str, disabled: str):
     spec = ("and", frozenset([("lit", circular, True), ("lit", disabled, False)]))
     cases = []   # (value text, condition)
     for node in walk_local(func):
-        if isinstance(node, ast.Assign) and any(isinstance(t, ast.Name) and t.id == "wrap_point" for t in node.targets):
+        targets = node.targets if isinstance(node, ast.Assign) else [node.target] if isinstance(node, ast.AnnAssign) else []
+        if any(isinstance(t, ast.Name) and t.id == "wrap_point" for t in targets) and getattr(node, "value", None) is not None:
             cases.append((txt(node.value), facts_nnf(path_facts(cfg, node)), node))
     if not cases:
         for call in calls(func):
